@@ -281,7 +281,7 @@ pub fn run(p: &Plan, threads: usize, rounds: usize, simd_expected: bool, id0: &m
                     let pc = pc.clone();
                     s.spawn(move || {
                         let mut seen: Vec<Vec<&'static str>> = vec![Vec::new(); pc.len()];
-                        let mut x = (t as u64 + 1) * 0x9e3779b97f4a7c15;
+                        let mut x = (t as u64 + 1).wrapping_mul(0x9e3779b97f4a7c15);
                         for _ in 0..(40 * pc.len()) {
                             x ^= x << 13; x ^= x >> 7; x ^= x << 17;
                             let c = (x % pc.len() as u64) as usize;
